@@ -279,7 +279,7 @@ impl Prop for C06 {
             return vec![];
         }
         let seed = std::env::var("VERIF_SEED").ok().and_then(|s| s.parse().ok()).unwrap_or(0u64);
-        let c = crate::fuzzrun::Campaign { runs_per_job: 150_000, jobs: 12, timeout_s: 8, seed: seed + 77 };
+        let c = crate::fuzzrun::Campaign { name: "C06", runs_per_job: 150_000, jobs: 12, timeout_s: 8, seed: seed + 77 };
         match crate::fuzzrun::run(&c, &[]) {
             Err(e) => {
                 eprintln!("harness error: fuzz campaign: {e}");
@@ -290,7 +290,12 @@ impl Prop for C06 {
                 ctx.obs.label(&format!("libfuzzer:artifacts={}", found.len()));
                 ctx.obs.eval(execs);
                 for f in found {
-                    if let Verdict::Fail(fl) = check_termination(&f.case, ctx) {
+                    let v = check_termination(&f.case, ctx);
+                    if !matches!(v, Verdict::Fail(_)) {
+                        println!("note: libFuzzer artifact ({}) did not fail when re-judged through the worker: {}", f.kind, f.case.describe());
+                        ctx.obs.label(&format!("libfuzzer:artifact-not-confirmed:{}", f.kind));
+                    }
+                    if let Verdict::Fail(fl) = v {
                         return vec![(format!("libfuzzer-{}", f.kind), Verdict::Fail(Failure { detail: format!("{} (candidate found by libFuzzer, re-judged through the worker)", fl.detail), ..fl }), Some(f.case.clone()))];
                     }
                 }
